@@ -3,7 +3,7 @@
 Programs of the documented grammar (lattices, generated, menu/choice shapes) are
 rendered in lexical variants (property order, separate prompt, comments and
 blank lines, line continuation, help blocks, tabs, a sub-tree moved into an
-rsource'd file) and parsed by the legacy parser and by the pyparsing one.
+rsource'd file, literal values through (re)defined macros) and parsed by the legacy parser and by the pyparsing one.
 Both must accept; the finalised trees (entries, order, nesting, types, prompts,
 help, every condition) and the sdkconfig / header / JSON outputs must coincide,
 across parsers and across variants.  The two trees, abstracted into the
@@ -95,7 +95,7 @@ def main(run):
     lat = lattice.prec_lattice(tier)
     if tier == "quick":
         items = [p for k, p in enumerate(lat) if p["family"] in ("F-edge", "F-setsym") or k % 12 == 0] + nav_programs() + ktree.generate(run.seed + 6100, 40)
-        styles = ["separate-prompt+shuffle", "comments", "continuation", "everything"]
+        styles = ["separate-prompt+shuffle", "comments", "continuation", "everything", "macros", "macros+rsource"]
         cap = 24
     else:
         items = lat[::2] + nav_programs() + ktree.generate(run.seed + 6100, 1500)
@@ -257,5 +257,5 @@ def main(run):
     run.assumptions += [
         "byte-level tokenisation (exotic quoting, tabs inside prompts, non-ASCII) is sampled by the variants, not modelled",
         "the order of the auxiliary lists Kconfig.choices / menus / comments is left open",
-        "macros, option env and $(shell) are outside the generated family",
+        "macros: NAME = / := literal definitions in front of entries (redefined later), used bare, quoted, embedded and doubled in default values and range bounds; option env and $(shell) are outside the generated family",
     ]
